@@ -3,6 +3,7 @@ package vc
 import (
 	"fmt"
 	"go/ast"
+	"go/token"
 	"go/types"
 	"strings"
 
@@ -24,6 +25,14 @@ func (x *fx) envAt(st *State, at *ssa.BasicBlock, override map[*ssa.Phi]Term, at
 	}
 	env.resolve = func(name string) (TV, bool) {
 		return x.resolveName(name, at, override, st, atEnd)
+	}
+	env.phiVal = func(p interface{}) (Term, bool) {
+		ph := p.(*ssa.Phi)
+		if t, ok := override[ph]; ok {
+			return t, true
+		}
+		t, ok := x.vals[ph]
+		return t, ok
 	}
 	env.seen = func(n int) (TV, bool) {
 		if n < 0 || n >= len(x.loopOrd) {
@@ -156,6 +165,70 @@ func (x *fx) loopInvariants(li *loopInfo, eff *Effects) []invItem {
 			}
 		}
 	}
+	// automatic bounds of induction variables: i = phi(c, i+k) with k > 0 gives i >= c
+	for _, in := range li.header.Instrs {
+		ph, ok := in.(*ssa.Phi)
+		if !ok {
+			break
+		}
+		if !isInteger(ph.Type()) {
+			continue
+		}
+		var c0 *ssa.Const
+		dir := 0
+		good := true
+		for i, ed := range ph.Edges {
+			pred := li.header.Preds[i]
+			if x.isBackEdge(pred, li.header) {
+				bo, ok := ed.(*ssa.BinOp)
+				if !ok || bo.X != ssa.Value(ph) {
+					good = false
+					break
+				}
+				k, ok := bo.Y.(*ssa.Const)
+				if !ok || k.Value == nil {
+					good = false
+					break
+				}
+				kv := k.Int64()
+				d := 0
+				switch {
+				case bo.Op == token.ADD && kv > 0, bo.Op == token.SUB && kv < 0:
+					d = 1
+				case bo.Op == token.SUB && kv > 0, bo.Op == token.ADD && kv < 0:
+					d = -1
+				}
+				if d == 0 || (dir != 0 && dir != d) {
+					good = false
+					break
+				}
+				dir = d
+			} else {
+				c, ok := ed.(*ssa.Const)
+				if !ok || c.Value == nil || (c0 != nil && c0.Int64() != c.Int64()) {
+					good = false
+					break
+				}
+				c0 = c
+			}
+		}
+		if !good || c0 == nil || dir == 0 {
+			continue
+		}
+		phv := ph
+		op := ">="
+		if dir < 0 {
+			op = "<="
+		}
+		bound := smtInt(c0.Int64())
+		out = append(out, invItem{name: fmt.Sprintf("%d:auto-bound:%s", li.ordinal, phv.Name()), props: nil, text: fmt.Sprintf("induction variable %s %s %d", phv.Comment, op, c0.Int64()), eval: func(env *Env) (Term, error) {
+			t, ok := env.phiVal(phv)
+			if !ok {
+				return "", fmt.Errorf("phi value unavailable")
+			}
+			return fmt.Sprintf("(%s %s %s)", op, t, bound), nil
+		}})
+	}
 	// loop frame: objects that existed at loop entry and are not listed keep
 	// their contents (relative to the loop entry state)
 	if fc != nil {
@@ -188,11 +261,12 @@ func (x *fx) loopInvariants(li *loopInfo, eff *Effects) []invItem {
 	}
 	// automatic function-frame invariant: objects that existed at function
 	// entry and are not in the function's modifies list are unchanged.
-	if x.top && fc != nil && fc.HasModifies && (fc.ModProfile == "" || fc.ModProfile == e.profile) && !eff.All {
+	if x.top && fc != nil && fc.Mod(e.profile) != nil && !eff.All {
+		mc := fc.Mod(e.profile)
 		for _, bf := range sortedKeys(eff.Writes) {
 			for _, fam := range e.famArrays(bf) {
 				fam := fam
-				out = append(out, invItem{name: fmt.Sprintf("%d:frame:%s", li.ordinal, fam), props: fc.ModProps, text: "function frame holds for " + fam, eval: func(env *Env) (Term, error) {
+				out = append(out, invItem{name: fmt.Sprintf("%d:frame:%s", li.ordinal, fam), props: mc.Props, text: "function frame holds for " + fam, eval: func(env *Env) (Term, error) {
 					return x.frameGoal(env, fam)
 				}})
 			}
@@ -219,7 +293,7 @@ func (x *fx) frameGoal(env *Env, fam string) (Term, error) {
 	oldEnv := *env
 	oldEnv.st = x.entry
 	conds := []string{"(< 0 r)", "(< r " + x.entry.alloc + ")"}
-	for _, m := range fc.Modifies {
+	for _, m := range fc.Mod(e.profile).Exprs {
 		tv, err := oldEnv.eval(m)
 		if err != nil {
 			return "", err
